@@ -385,78 +385,104 @@ def stripTypeSpec (decl : Str) (ts : List TokTree) : List TokTree × Bool :=
   | .leaf d :: .leaf cc :: rest => if d = decl ∧ cc = [':', ':'] then (rest, true) else (ts, false)
   | _ => (ts, false)
 
+/-- character literals of a constructor without type specification have one length; none is longer
+    than the declared length -/
+def lensOK (typed : Bool) (bits : Nat) : List Nat → Bool
+  | [] => true
+  | n :: ns => (typed || ns.all (· = n)) && (n :: ns).all (· ≤ bits)
+
+/-- the value read, checked against the declared type: integer literals fit, character literals of a
+    constructor without type specification have one length, none is longer than the declared length -/
+def fortranFinish (decl : Str) (k : Kind) (bits : Nat) (name : Str) (dims : List Nat) (tree : TokTree)
+    (typed : Bool) : Option Sym := do
+  let v ← interp .doubled k (cs!".true.") (cs!".false.") tree
+  if ¬ fitsInt bits v then none else
+  if lensOK typed bits (strLens v) then
+    some ⟨name, decl, dims, decide (k = Kind.float ∧ bits > 32), v⟩
+  else none
+
+/-- `NAME = value;` after `parameter :: ` -/
+def readFortranScalar (decl : Str) (k : Kind) (bits : Nat) (r : Str) : Option Sym := do
+  let nr := r.span (fun c => c ≠ ' ')
+  let r ← dropPrefix? (cs!" = ") nr.2
+  let body ← dropLastChar? ';' r
+  let tree ← parseInit .doubled '[' ']' body
+  match tree with
+  | .leaf _ => fortranFinish decl k bits nr.1 [] tree false
+  | .arr _ => none
+
+/-- `NAME = [ … ];` after `dimension (n) :: ` -/
+def readFortranVector (decl : Str) (k : Kind) (bits : Nat) (dims : List Nat) (r : Str) : Option Sym := do
+  let nr := r.span (fun c => c ≠ ' ')
+  let r ← dropPrefix? (cs!" = ") nr.2
+  let body ← dropLastChar? ';' r
+  let tree ← parseInit .doubled '[' ']' body
+  let et ← match tree with
+    | .arr ts => some (stripTypeSpec decl ts)
+    | .leaf _ => none
+  let tree := Tree.arr et.1
+  let sh ← rectShape tree
+  if sh ≠ dims ∨ dims.length ≠ 1 then none else
+  fortranFinish decl k bits nr.1 dims tree et.2
+
+/-- `NAME = reshape([ … ],[dims],order=[…])` after `dimension (…), parameter :: ` -/
+def readFortranReshape (decl : Str) (k : Kind) (bits : Nat) (dims : List Nat) (r : Str) : Option Sym := do
+  let nr := r.span (fun c => c ≠ ' ')
+  let r ← dropPrefix? (cs!" = reshape(") nr.2
+  let body ← dropLastChar? ')' r
+  let items ← parseItems .doubled '[' ']' body
+  let sso ← match items with
+    | [Tree.arr src, shp] => some (src, shp, (none : Option (List Nat)))
+    | [Tree.arr src, shp, Tree.leaf o, ord] =>
+      if o = cs!"order=" then (natList ord).map (fun x => (src, shp, some x)) else none
+    | _ => none
+  let st := stripTypeSpec decl sso.1
+  let dims2 ← natList sso.2.1
+  if dims2 ≠ dims then none else do
+  let toks ← st.1.mapM leafTok
+  let tree ← reshapeF toks dims sso.2.2
+  fortranFinish decl k bits nr.1 dims tree st.2
+
+/-- after `decl, ` : the three declaration forms -/
+def readFortranRest (decl : Str) (k : Kind) (bits : Nat) (r : Str) : Option Sym :=
+  match dropPrefix? (cs!"parameter :: ") r with
+  | some r => readFortranScalar decl k bits r
+  | none => do
+    let r ← dropPrefix? (cs!"dimension (") r
+    let dr := r.span (fun c => c ≠ ')')
+    let dims ← parseCommaNats dr.1
+    match dropPrefix? (cs!") :: ") dr.2 with
+    | some r => readFortranVector decl k bits dims r
+    | none => do
+      let r ← dropPrefix? (cs!"), parameter :: ") dr.2
+      readFortranReshape decl k bits dims r
+
 def readFortranLine (l : Str) : Option Sym := do
   let r ← dropPrefix? [' ', ' '] l
-  let (decl, r) := r.span (fun c => c ≠ ',')
-  let (k, bits) ← fortranKind decl
-  let r ← dropPrefix? [',', ' '] r
-  let finish (name : Str) (dims : List Nat) (tree : TokTree) (typed : Bool) : Option Sym := do
-    let v ← interp .doubled k (cs!".true.") (cs!".false.") tree
-    if ¬ fitsInt bits v then none
-    -- without a type specification all strings of a constructor must have one length; none may
-    -- be longer than the declared length (it would be cut)
-    match strLens v with
-    | [] => pure ()
-    | n :: ns => if (typed ∨ ns.all (· = n)) ∧ (n :: ns).all (· ≤ bits) then pure () else none
-    some ⟨name, decl, dims, decide (k = Kind.float ∧ bits > 32), v⟩
-  match dropPrefix? (cs!"parameter :: ") r with
-  | some r =>
-    let (name, r) := r.span (fun c => c ≠ ' ')
-    let r ← dropPrefix? (cs!" = ") r
-    let body ← dropLastChar? ';' r
-    let tree ← parseInit .doubled '[' ']' body
-    match tree with
-    | .leaf _ => finish name [] tree false
-    | .arr _ => none
-  | none =>
-    let r ← dropPrefix? (cs!"dimension (") r
-    let (ds, r) := r.span (fun c => c ≠ ')')
-    let dims ← parseCommaNats ds
-    match dropPrefix? (cs!") :: ") r with
-    | some r =>
-      let (name, r) := r.span (fun c => c ≠ ' ')
-      let r ← dropPrefix? (cs!" = ") r
-      let body ← dropLastChar? ';' r
-      let tree ← parseInit .doubled '[' ']' body
-      let (elems, typed) ← match tree with
-        | .arr ts => some (stripTypeSpec decl ts)
-        | .leaf _ => none
-      let tree := Tree.arr elems
-      let sh ← rectShape tree
-      if sh ≠ dims ∨ dims.length ≠ 1 then none
-      finish name dims tree typed
-    | none =>
-      let r ← dropPrefix? (cs!"), parameter :: ") r
-      let (name, r) := r.span (fun c => c ≠ ' ')
-      let r ← dropPrefix? (cs!" = reshape(") r
-      let body ← dropLastChar? ')' r
-      let items ← parseItems .doubled '[' ']' body
-      let (src, shp, ord) ← match items with
-        | [Tree.arr src, shp] => some (src, shp, none)
-        | [Tree.arr src, shp, Tree.leaf o, ord] =>
-          if o = cs!"order=" then (natList ord).map (fun x => (src, shp, some x)) else none
-        | _ => none
-      let (src, typed) := stripTypeSpec decl src
-      let dims2 ← natList shp
-      if dims2 ≠ dims then none
-      let toks ← src.mapM leafTok
-      let tree ← reshapeF toks dims ord
-      finish name dims tree typed
+  let dr := r.span (fun c => c ≠ ',')
+  let kb ← fortranKind dr.1
+  let r ← dropPrefix? [',', ' '] dr.2
+  readFortranRest dr.1 kb.1 kb.2 r
+
+/-- declarations up to the blank line that is followed by the closing `end module` line -/
+def readBodyF (endline : Str) : List Str → Option (List Sym)
+  | [] => none
+  | l :: rest =>
+    if l = [] then
+      (match rest with
+       | [e] => if e = endline then some [] else none
+       | _ => none)
+    else do
+      let s ← readFortranLine l
+      let ss ← readBodyF endline rest
+      some (s :: ss)
 
 def readFortran (modname : Str) (text : Str) : Option (List Sym) := do
-  let ls := lines text
-  let ls ← match ls with
+  let ls ← match lines text with
     | a :: b :: [] :: rest =>
       if a = cs!"module " ++ modname ∧ b = cs!"  implicit none" then some rest else none
     | _ => none
-  let rec go : List Str → Option (List Sym)
-    | [] => none
-    | [[], e] => if e = cs!"end module " ++ modname then some [] else none
-    | l :: rest => do
-      let s ← readFortranLine l
-      let ss ← go rest
-      some (s :: ss)
-  go ls
+  readBodyF (cs!"end module " ++ modname) ls
 
 /-! ### Bash -/
 
